@@ -40,6 +40,7 @@ def witness_search(tier, seed):
     from simfile.notes import NoteData
     texts = ["#TITLE:a;#OFFSET:0.1;#BPMS:0=120,4=60;#STOPS:2=0.5;#ANIMATIONS:x;\n#NOTES:dance-single:d:Easy:3:0,0:\n1000\n0100\n;#NOTES:dance-single::Hard:9::0000;",
              "#OFFSET:0;#BPMS:0=100;#STOPS:;#WARPS:1=2;#FOO:bar;",
+             "#VERSION:0.56;#OFFSET:0;#BPMS:0=100;#STOPS:;#ORIGIN:x;#LABELS:0=a;#NOTES:dance-single::Hard:9::0000;",
              "#OFFSET:0;#BPMS:0=-100;#STOPS:;", "#OFFSET:0;#BPMS:0=100;#STOPS:1=-2;", "#OFFSET:0;#BPMS:0=100,4=-0.5;#STOPS:;",
              "#OFFSET:0;#BPMS:0=100;#STOPS:1=-0.001;"]
     for text in texts:
